@@ -118,6 +118,34 @@ def decorate(rng, n, policy):
             rename_history(rng, d)
             for x in list(d.ports) + list(d.cables) + list(d.children):
                 rename_history(rng, x)
+    decorate.refused = refused_adds(rng, n)
+
+
+def refused_adds(rng, n):
+    """a past of REFUSED edits: an orphan with a fresh identifier but a sibling's name is offered to a definition and
+    refused; nothing in the netlist carries that identifier, so exact queries for it must find nothing."""
+    k = 0
+    for l in n.libraries:
+        for d in l.definitions:
+            if rng.random() > 0.3:
+                continue
+            for kind, sibs, mk, add in (("port", list(d.ports), sdn.Port, d.add_port), ("cable", list(d.cables), sdn.Cable, d.add_cable),
+                                        ("child", list(d.children), sdn.Instance, d.add_child)):
+                named = [x for x in sibs if x.name]
+                if not named or rng.random() < 0.5:
+                    continue
+                ident = "Refused%s%d" % (kind.title(), rng.randrange(10000))
+                o = mk(rng.choice(named).name)
+                o["EDIF.identifier"] = ident
+                try:
+                    add(o)
+                except ValueError:
+                    OLD_VALUES.append(ident)
+                    k += 1
+                    continue
+                # accepted after all (should not happen: the name is taken): take it out again, nothing to query
+                {"port": d.remove_port, "cable": d.remove_cable, "child": d.remove_child}[kind](o)
+    return k
 
 
 def _decorate(rng, n, policy):
@@ -338,6 +366,7 @@ def run_case(ctx, i, rng):
         n = gen_ir.generate(rng, profile="edif" if i % 3 else "any", style="mixed", ndefs=rng.randint(3, 7), share=0.5,
                             max_children=4, outside=True)
         decorate(rng, n, policy)
+        ctx.count("refused_adds_in_history", decorate.refused)
         st = gen_ir.shape_stats(n)
         ck = Checker(ctx, rng, policy, st)
         roots = roots_of(rng, n)
